@@ -1876,6 +1876,10 @@ class Interp:
     def get_item(self, obj, key):
         if isinstance(obj, SV):
             obj = self.view(obj)
+        if type(obj).__name__ == "_SplitList":
+            if key == 0:
+                return obj.items[0]
+            raise Unsupported("element other than [0] of a split of a symbolic string")
         if isinstance(obj, (SList, STuple)):
             if isinstance(key, int):
                 if -len(obj.items) <= key < len(obj.items):
